@@ -1404,9 +1404,10 @@ def class_tables(mp):
             'ChordSymbol.CHORD_KIND_ABBREVIATIONS': repr(sorted(mp.ChordSymbol.CHORD_KIND_ABBREVIATIONS.items())),
             'module constants': repr((mp.DEFAULT_MIDI_PROGRAM, mp.DEFAULT_MIDI_CHANNEL, mp.MUSICXML_MIME_TYPE)),
             'MusicXMLParserState()': repr(sorted(vars(mp.MusicXMLParserState()).items(), key=lambda kv: kv[0])),
-            'class attributes': repr(sorted((c, k) for c in ('MusicXMLDocument', 'Part', 'Measure', 'Note', 'ScorePart', 'MusicXMLParserState')
-                                            for k, v in vars(getattr(mp, c)).items()
-                                            if isinstance(v, (list, dict, set)) and not k.startswith('__')))}
+            # class-level containers (shared by all instances): a list / dict that accumulates across documents shows here
+            'class-level containers': repr(sorted((c, k, repr(v)[:4000]) for c, cls in vars(mp).items() if isinstance(cls, type)
+                                                  for k, v in vars(cls).items()
+                                                  if isinstance(v, (list, dict, set)) and not k.startswith('__')))}
 
 
 def run(chk):
@@ -1583,6 +1584,7 @@ def _run(chk, im, mp, corpus):
         if r:
             nfail += 1
             chk.fail(r[1], {'kind': 'file-history', 'scores': h['scores'], 'steps': h['steps'][:r[0]]})
+            chk.failures.insert(0, chk.failures.pop())      # self-contained (the whole sequence of conversions): reported first
     # class-level tables of the parser: what they were when the run started
     now = class_tables(mp)
     for k in tables0:
